@@ -22,7 +22,7 @@ import sys
 import time
 import traceback
 
-from . import leantie
+from . import leantie, vtime
 
 VERIF = leantie.VERIF
 EVIDENCE_DIR = os.path.join(VERIF, 'evidence')
@@ -87,6 +87,12 @@ def eval_one(mod, scn, driver_ok=True, model_out=None):
            'trace': None, 'model': None, 'lines': None}
     try:
         res = mod.run_impl(scn)
+    except vtime.Deadlock as err:
+        # the REAL code hangs on this scenario (it never does on the unchanged tree): whatever the property
+        # promises about the outcome of this scenario is not delivered
+        rec['viol'] = [{'clause': 'terminates', 'what': f'the implementation never finishes this scenario: {err}'}]
+        rec['lines'], rec['trace'] = [], []
+        return rec
     except Exception:
         rec['infra'] = 'run_impl: ' + traceback.format_exc()[-1500:]
         return rec
